@@ -65,9 +65,17 @@ func (r *Run) execFrom(fr *Frame, st *State, b *ssa.BasicBlock, start int, prev 
 			}
 			return res
 		case *ssa.Call:
+			var argv []*Val // argument values at the moment of the call, for (callarg "callee" k i)
+			if x.Call.IsInvoke() {
+				argv = append(argv, r.val(fr, st, x.Call.Value))
+			}
+			for _, a := range x.Call.Args {
+				argv = append(argv, r.val(fr, st, a))
+			}
 			outs := r.handleCall(fr, st, x, &x.Call)
 			for _, o := range outs {
 				r.recordCall(o.st, x, &x.Call, o.rets)
+				r.recordCallArgs(o.st, x, &x.Call, argv)
 				r.ghostEvent(fr, o.st, "call", strings.TrimPrefix(r.eng.calleeName(&x.Call), "dyn:"), "")
 			}
 			if len(outs) == 1 && outs[0].st == st {
@@ -114,6 +122,15 @@ func (r *Run) recordCall(st *State, instr ssa.Instruction, cc *ssa.CallCommon, r
 		flat = rets
 	}
 	st.calls[key] = flat
+}
+
+func (r *Run) recordCallArgs(st *State, instr ssa.Instruction, cc *ssa.CallCommon, argv []*Val) {
+	name := strings.TrimPrefix(r.eng.calleeName(cc), "dyn:")
+	key := fmt.Sprintf("%s#%d", name, r.eng.callOrdinal(instr, r.eng.calleeName(cc)))
+	if instr.Parent() != r.fn {
+		key = fnName(instr.Parent()) + ":" + key
+	}
+	st.calls["arg:"+key] = argv
 }
 
 func (r *Run) runDefers(fr *Frame, st *State) []Outcome {
